@@ -4,9 +4,11 @@
     The model (Model/Legacy.v) takes the significance test as a parameter
     [dtest] (its p-values are C11's and C12's subject) and math.Log/math.Exp
     as oracles. *)
-From Coq Require Import ZArith List Bool Sorting.Permutation Sorting.Sorted.
+From Coq Require Import ZArith Reals List Bool Sorting.Permutation Sorting.Sorted.
+From Flocq Require Import Core BinarySingleNaN.
 From Perf Require Import Base.Bytes Base.Sx Base.B64 Model.StatsF Model.Legacy.
-From Perf Require Import Proofs.Legacy Proofs.LegacySort Proofs.LegacyTables.
+From Perf Require Import Base.FmtFixed Proofs.B64Flocq.
+From Perf Require Import Proofs.Legacy Proofs.LegacySort Proofs.LegacyTables Proofs.LegacyMean.
 Import ListNotations.
 Local Open Scope Z_scope.
 
@@ -64,6 +66,35 @@ Theorem C17_min_max_are_extremes : forall xs,
   /\ b64_lt mx mn = false.
 Proof. exact bounds_are_extremes. Qed.
 Print Assumptions C17_min_max_are_extremes.
+
+(** Min <= Mean <= Max in binary64, for the incremental mean exactly as coded
+    (m += (x - m) / float64(i+1)), on valid finite values, fewer than 2^53 of
+    them, whenever no difference x - m formed on the way overflows
+    ([mean_no_overflow], the exact guard; every other operation of a step is
+    then finite too). Uses the real numbers (Flocq): standard-library axioms. *)
+Theorem C17_min_le_mean_le_max : forall xs : list b64,
+  xs <> [] ->
+  Forall (fun x => valid_binary 53 1024 x = true /\ b64_is_finite x = true) xs ->
+  (Z.of_nat (length xs) < 2 ^ 53)%Z ->
+  mean_no_overflow xs = true ->
+  b64_le (fst (bounds_f xs)) (mean_f xs) = true /\ b64_le (mean_f xs) (snd (bounds_f xs)) = true.
+Proof. exact min_le_mean_le_max_b64. Qed.
+Print Assumptions C17_min_le_mean_le_max.
+
+(** the guard holds in particular when every magnitude is at most 2^1022 *)
+Theorem C17_no_overflow_below_2p1022 : forall bxs : list (binary_float 53 1024),
+  Forall (fun x => is_finite x = true /\ (Rabs (B2R x) <= bpow radix2 1022)%R) bxs ->
+  (Z.of_nat (length bxs) < 2 ^ 53)%Z ->
+  mean_no_overflow (map B2SF bxs) = true.
+Proof. exact mean_no_overflow_of_magnitude. Qed.
+Print Assumptions C17_no_overflow_below_2p1022.
+
+(** the model's %+.2f / %0.3f are FmtFixed's exact fixed notation plus fmt's sign rule *)
+Theorem C17_fmt_is_fmt_fixed : forall plus p x,
+  fmt_f plus p x =
+  (if plus && negb (b64_signbit x) && negb (b64_is_inf x) then [x2b] else []) ++ fmt_fixed x p.
+Proof. reflexivity. Qed.
+Print Assumptions C17_fmt_is_fmt_fixed.
 
 (** ** rows: labels, cells and delta columns *)
 Theorem C17_rows_are_cells : forall dtest alpha0 split cfs unit r,
@@ -215,3 +246,15 @@ Proof. vm_compute. reflexivity. Qed.
 Example C17_example_sort_domain :
   forallb (fun r => negb (b64_is_nan (delta_key r))) (plain_rows ex_dtest f_zero (build [] ex_cfs) (bs "ns/op")) = true.
 Proof. vm_compute. reflexivity. Qed.
+
+(** the hypotheses of C17_min_le_mean_le_max hold on a concrete sample, and its
+    conclusion evaluates to true there; a sample whose differences overflow is
+    rejected by the guard (and its mean indeed leaves the hull: it is NaN) *)
+Example C17_example_mean_guard :
+  let xs := map ex_f [10; 11; 12; 10] in
+  (forallb (fun x => valid_binary 53 1024 x && b64_is_finite x) xs, mean_no_overflow xs,
+   b64_le (fst (bounds_f xs)) (mean_f xs) && b64_le (mean_f xs) (snd (bounds_f xs)))
+  = (true, true, true)
+  /\ let big := b64_of_bits 0x7FEFFFFFFFFFFFFF in
+     (mean_no_overflow [big; b64_neg big], b64_is_nan (mean_f [big; b64_neg big; big])) = (false, true).
+Proof. vm_compute. split; reflexivity. Qed.
